@@ -5,7 +5,10 @@ REPO = os.environ.get("NFCPY_REPO", "/repo")
 SRC = os.environ.get("NFCPY_SRC", os.path.join(REPO, "src"))
 SPEC = os.path.join(VERIF, "spec")
 OUT = os.path.join(VERIF, "out")
-EVID = os.path.join(VERIF, "evidence")
+# evidence is only ever written for /repo itself: a run against a patched copy (seeded regressions, mutants) or under
+# the coverage audit writes its evidence next to the other scratch output
+EVID = os.path.join(VERIF, "evidence") if not (os.environ.get("NFCPY_SRC") or os.environ.get("COVAUDIT")) \
+    else os.path.join(OUT, "evidence-scratch")
 
 
 def use_repo():
